@@ -225,6 +225,25 @@ func main() {
 			solveOne(j.o, j.file, []string{"z3-new", "z3", "cvc5"}, *timeout)
 		})
 		res.SolveMs = ms(time.Since(t1))
+		// cover clauses: one satisfiable member (some path reaches the anchor with the condition) discharges the clause
+		for _, fr := range res.Functions {
+			covered := map[string]bool{}
+			for _, o := range fr.Obligations {
+				if o.Cover && o.Verdict == "sat" {
+					covered[o.Clause] = true
+				}
+			}
+			for _, o := range fr.Obligations {
+				if !o.Cover {
+					continue
+				}
+				if covered[o.Clause] {
+					o.Verdict, o.Output = "unsat", "covered: a path reaches the statement with the condition true"
+				} else {
+					o.Verdict, o.Output = "uncovered", "no path reaches the statement with the condition true"
+				}
+			}
+		}
 		// call-site reachability pairs: "after" unreachable counts only when "before" is reachable
 		byName := map[string]*Obligation{}
 		for _, fr := range res.Functions {
